@@ -8,6 +8,8 @@ import (
 	"time"
 
 	ds "github.com/ipfs/go-datastore"
+	"github.com/libp2p/go-libp2p/core/peer"
+	"github.com/libp2p/go-libp2p/core/record"
 	dssync "github.com/ipfs/go-datastore/sync"
 	pstore "github.com/libp2p/go-libp2p/core/peerstore"
 	"github.com/libp2p/go-libp2p/p2p/host/peerstore/pstoremem"
@@ -15,6 +17,7 @@ import (
 	"pgregory.net/rapid"
 
 	"verif/internal/hx"
+	"verif/internal/keys"
 	"verif/internal/kf"
 	"verif/internal/stats"
 )
@@ -38,8 +41,9 @@ func TestCapEviction(t *testing.T) {
 		cache := uint(rapid.SampledFrom([]int{0, 8}).Draw(rt, "cache"))
 		nops := rapid.IntRange(2, 14).Draw(rt, "nops")
 		type op struct {
-			kind  string // add, set, update (connected -> ttl)
+			kind  string // add, set, update (connected -> ttl), consume (signed record)
 			addrs []int
+			seq   uint64
 			ttl   time.Duration
 			adv   time.Duration
 		}
@@ -52,24 +56,36 @@ func TestCapEviction(t *testing.T) {
 			if rapid.IntRange(0, 4).Draw(rt, "connected") == 0 {
 				ttl = pstore.ConnectedAddrTTL
 			}
-			kind := rapid.SampledFrom([]string{"add", "add", "add", "set", "update"}).Draw(rt, "kind")
+			kind := rapid.SampledFrom([]string{"add", "add", "add", "set", "update", "consume", "consume"}).Draw(rt, "kind")
 			if kind == "set" && rapid.IntRange(0, 3).Draw(rt, "zero") == 0 {
 				ttl = time.Duration(rapid.SampledFrom([]int{0, -1}).Draw(rt, "nonpositive"))
 			}
 			if kind == "update" && isConnected(ttl) {
 				ttl = finite[0]
 			}
-			ops[i] = op{kind: kind, addrs: perm[:n], ttl: ttl,
+			var seq uint64
+			if kind == "consume" {
+				seq = uint64(rapid.IntRange(1, 4).Draw(rt, "seq"))
+			}
+			ops[i] = op{kind: kind, addrs: perm[:n], ttl: ttl, seq: seq,
 				adv: time.Duration(rapid.SampledFrom([]int{1, 1, 7, 61, 125, 901}).Draw(rt, "adv")) * time.Second}
 		}
 		var trace []string
 		tie, evictions, batchEvictions, downgrades := false, 0, 0, 0
+		recOps, recKeptAcrossEviction, recRejected, recSuperseded := 0, 0, 0, 0
 		hx.Bubble(t, rt, func() {
 			mem := pstoremem.NewAddrBook(pstoremem.WithMaxAddressesPerPeer(capN))
 			defer mem.Close()
 			dsb := newDS(t, dssync.MutexWrap(ds.NewMapDatastore()), cache, false, capN)
 			defer dsb.Close()
 			model := map[int]*capEntry{}
+			// the signed record the peer must have now (nil: none), as in the uncapped model: it
+			// lives exactly as long as the peer has a live address
+			type capRec struct {
+				seq   uint64
+				addrs map[int]bool
+			}
+			var rec *capRec
 			p := pid(0)
 			for _, o := range ops {
 				time.Sleep(o.adv)
@@ -79,13 +95,51 @@ func TestCapEviction(t *testing.T) {
 						delete(model, k)
 					}
 				}
+				if len(model) == 0 {
+					rec = nil
+				}
 				var as []ma.Multiaddr
 				for _, ai := range o.addrs {
 					as = append(as, baseAddrs[ai])
 				}
-				trace = append(trace, fmt.Sprintf("%s(%v,%s)@%s", o.kind, o.addrs, ttlName(o.ttl), now.Format("15:04:05")))
+				if o.kind == "consume" {
+					trace = append(trace, fmt.Sprintf("consume(seq%d,%v,%s)@%s", o.seq, o.addrs, ttlName(o.ttl), now.Format("15:04:05")))
+				} else {
+					trace = append(trace, fmt.Sprintf("%s(%v,%s)@%s", o.kind, o.addrs, ttlName(o.ttl), now.Format("15:04:05")))
+				}
 				exp := now.Add(o.ttl)
+				rejected := false
 				switch o.kind {
+				case "consume":
+					recOps++
+					env := orderedEnvelope(o.seq, o.addrs)
+					okM, errM := mem.ConsumePeerRecord(env, o.ttl)
+					okD, errD := dsb.ConsumePeerRecord(env, o.ttl)
+					want := rec == nil || rec.seq <= o.seq
+					if okM != want || okD != want || errM != nil || errD != nil {
+						rt.Fatalf("ConsumePeerRecord(seq %d) with per-peer cap %d: memory (%v,%v) datastore (%v,%v), want accepted=%v (current record: %+v)\nhistory: %s",
+							o.seq, capN, okM, errM, okD, errD, want, rec, strings.Join(trace, "; "))
+					}
+					if !want {
+						rejected = true
+						recRejected++
+						break
+					}
+					newSet := map[int]bool{}
+					for _, ai := range o.addrs {
+						newSet[ai] = true
+					}
+					if rec != nil {
+						// addresses the previous record listed and the new one does not are dropped unless a
+						// connection holds them
+						for ai := range rec.addrs {
+							if e, ok := model[ai]; ok && !newSet[ai] && !isConnected(e.ttl) {
+								delete(model, ai)
+								recSuperseded++
+							}
+						}
+					}
+					rec = &capRec{o.seq, newSet}
 				case "set":
 					mem.SetAddrs(p, as, o.ttl)
 					dsb.SetAddrs(p, as, o.ttl)
@@ -104,8 +158,9 @@ func TestCapEviction(t *testing.T) {
 					}
 				}
 				inBatch := map[int]bool{}
+				evBefore := evictions
 				for _, ai := range o.addrs {
-					if o.kind == "update" {
+					if o.kind == "update" || rejected {
 						break
 					}
 					if o.ttl <= 0 {
@@ -152,6 +207,26 @@ func TestCapEviction(t *testing.T) {
 					model[ai] = &capEntry{o.ttl, exp}
 					inBatch[ai] = true
 				}
+				if len(model) == 0 {
+					rec = nil
+				}
+				if rec != nil && evictions > evBefore {
+					recKeptAcrossEviction++
+				}
+				for which, env := range map[string]*record.Envelope{"memory": mem.GetPeerRecord(p), "datastore": dsb.GetPeerRecord(p)} {
+					got := recID(env)
+					switch {
+					case rec == nil && got != "":
+						rt.Fatalf("%s book with per-peer cap %d returns the record %s for a peer without live addresses\nhistory: %s", which, capN, got, strings.Join(trace, "; "))
+					case rec != nil && got == "":
+						rt.Fatalf("%s book with per-peer cap %d lost the signed record (seq %d) of a peer that has had live addresses ever since it was accepted (now %v)\nhistory: %s",
+							which, capN, rec.seq, addrSet(mem.Addrs(p)), strings.Join(trace, "; "))
+					case rec != nil:
+						if r, err := env.Record(); err != nil || r.(*peer.PeerRecord).Seq != rec.seq {
+							rt.Fatalf("%s book with per-peer cap %d returns record %s, the last accepted one has seq %d\nhistory: %s", which, capN, got, rec.seq, strings.Join(trace, "; "))
+						}
+					}
+				}
 				var want []string
 				for k := range model {
 					want = append(want, baseAddrs[k].String())
@@ -173,6 +248,18 @@ func TestCapEviction(t *testing.T) {
 		}
 		if batchEvictions > 0 {
 			labels = append(labels, "evicted-entry-of-the-same-batch")
+		}
+		if recOps > 0 {
+			labels = append(labels, "signed-record-under-cap")
+		}
+		if recKeptAcrossEviction > 0 {
+			labels = append(labels, "record-kept-across-eviction")
+		}
+		if recRejected > 0 {
+			labels = append(labels, "older-seq-refused-under-cap")
+		}
+		if recSuperseded > 0 {
+			labels = append(labels, "superseded-address-dropped-under-cap")
 		}
 		stats.Case(name, fmt.Sprintf("%d/%d/%s", capN, cache, strings.Join(trace, ";")), evictions > 0, labels...)
 		if stats.WantSample(name) {
@@ -235,4 +322,25 @@ func TestWitness_DSNonPositiveTTLRecordEvicts(t *testing.T) {
 			return false, ""
 		})
 	})
+}
+
+// orderedEnvelope seals a record of peer 0 listing the addresses in exactly the given order
+// (under a cap the order decides which entry of a batch is evicted first).
+var orderedEnvCache = map[string]*record.Envelope{}
+
+func orderedEnvelope(seq uint64, ais []int) *record.Envelope {
+	k := fmt.Sprint(seq, ais)
+	if e, ok := orderedEnvCache[k]; ok {
+		return e
+	}
+	var addrs []ma.Multiaddr
+	for _, ai := range ais {
+		addrs = append(addrs, baseAddrs[ai])
+	}
+	e, err := record.Seal(&peer.PeerRecord{PeerID: pid(0), Addrs: addrs, Seq: seq}, keys.Ed(10).Priv)
+	if err != nil {
+		panic(err)
+	}
+	orderedEnvCache[k] = e
+	return e
 }
